@@ -8,29 +8,36 @@ pub struct TlsConnParams { _p: () }
 
 // what a redis Manager connects to: decided by `redis::Client::open(params)` from `params.into_connection_info()`
 pub enum Target { Url(Seq<char>), Info(RConnectionInfo) }
-pub trait IntoConnectionInfo: Sized {
+pub trait IntoConnectionInfoSpec: Sized {
     spec fn target_spec(self) -> Target;
 }
-impl IntoConnectionInfo for &Str {
+// redis::IntoConnectionInfo: a value that names its server as a connection structure converts to exactly that structure
+pub trait IntoConnectionInfo: IntoConnectionInfoSpec {
+    fn into_connection_info(self) -> (r: Result<RConnectionInfo, RedisError>)
+        ensures self.target_spec() matches Target::Info(i) ==> r == Ok::<RConnectionInfo, RedisError>(i);
+}
+impl IntoConnectionInfoSpec for &Str {
     open spec fn target_spec(self) -> Target { Target::Url(self@) }
 }
-pub struct Manager { pub target: Ghost<Target> }
-impl Manager {
-    // crate::Manager::new(params) = Client::open(params)?: fails exactly on malformed parameters (arbitrary here), never panics
+impl IntoConnectionInfo for &Str {
+    // URL parsing (redis crate): arbitrary outcome
     #[verifier::external_body]
-    pub fn new<T: IntoConnectionInfo>(params: T) -> (r: Result<Manager, RedisError>)
-        ensures r matches Ok(m) ==> m.target@ == params.target_spec()
+    fn into_connection_info(self) -> (r: Result<RConnectionInfo, RedisError>) { unimplemented!() }
+}
+// redis::Client::open(params): fails exactly on malformed parameters (arbitrary here), never panics; the client connects to
+// what `params.into_connection_info()` names
+pub struct Client { pub target: Ghost<Target> }
+impl Client {
+    #[verifier::external_body]
+    pub fn open<T: IntoConnectionInfo>(params: T) -> (r: Result<Client, RedisError>)
+        ensures r matches Ok(c) ==> c.target@ == params.target_spec()
     { unimplemented!() }
 }
-// deadpool::managed::Pool::builder(manager).config(cfg) (contracts proved in unit mg: builder.holds_the_manager_untouched,
-// builder_config.sets_only_config)
-pub struct PoolBuilder { pub manager: Manager, pub config: PoolConfig }
-pub struct Pool { }
-impl Pool {
+#[verifier::external_body]
+pub struct AsyncConnectionConfig { _p: () }
+impl AsyncConnectionConfig {
+    pub uninterp spec fn default_spec() -> AsyncConnectionConfig;
     #[verifier::external_body]
-    pub fn builder(manager: Manager) -> (r: PoolBuilder) ensures r.manager == manager { unimplemented!() }
+    pub fn default() -> (r: Self) ensures r == Self::default_spec() { unimplemented!() }
 }
-impl PoolBuilder {
-    #[verifier::external_body]
-    pub fn config(self, value: PoolConfig) -> (r: PoolBuilder) ensures r.manager == self.manager, r.config == value { unimplemented!() }
-}
+pub type RedisResult<T> = Result<T, RedisError>;
